@@ -1,0 +1,44 @@
+//! Verification hook (only with `--cfg mamba_verif`): the private lexer as plain data.
+use crate::parse::lex::token::{Lex, Token};
+
+#[derive(Debug, Clone)]
+pub struct LexTok {
+    /// Variant name of the token, e.g. `Id`, `Str`, `NL`, `Indent`.
+    pub kind: String,
+    /// The token's canonical spelling (`Display`).
+    pub lexeme: String,
+    pub start: (usize, usize),
+    pub end: (usize, usize),
+    /// Tokens of interpolated expressions (string tokens only).
+    pub inner: Vec<Vec<LexTok>>,
+}
+
+fn kind_of(token: &Token) -> String {
+    let dbg = format!("{token:?}");
+    dbg.split(|c: char| !c.is_ascii_alphanumeric())
+        .next()
+        .unwrap_or("")
+        .to_string()
+}
+
+fn convert(lex: &Lex) -> LexTok {
+    let inner = if let Token::Str(_, inner) = &lex.token {
+        inner.iter().map(|ts| ts.iter().map(convert).collect()).collect()
+    } else {
+        vec![]
+    };
+    LexTok {
+        kind: kind_of(&lex.token),
+        lexeme: format!("{}", lex.token),
+        start: (lex.pos.start.line, lex.pos.start.pos),
+        end: (lex.pos.end.line, lex.pos.end.pos),
+        inner,
+    }
+}
+
+/// Run the lexer. `Err` carries (line, pos, message).
+pub fn lex(input: &str) -> Result<Vec<LexTok>, (usize, usize, String)> {
+    crate::parse::lex::tokenize(input)
+        .map(|tokens| tokens.iter().map(convert).collect())
+        .map_err(|err| (err.pos.line, err.pos.pos, err.msg))
+}
